@@ -501,3 +501,40 @@ pub(crate) fn solo_wait_for_readers_full_slots() {
     vassert!(m.helping.control == helping_h::C_IDLE && m.slots[8] == NONE && m.active_writers == 0, "writer_leaves_its_own_node_idle");
     vcover!("solo_wait_for_readers_full_slots_end");
 }
+
+// The empty value (None of an Option<..> kind = the null pointer) is an ordinary stored pointer as
+// far as the debt machinery is concerned: a guard of it takes a slot (holding 0, which is not the
+// NONE mark) and must give it back; no count is ever touched for it.
+// @harness name=l1_prot_null props=C02,C10,C14,C15 tier=quick flavour=nostd fn=HybridProtection::drop+HybridProtection::into_inner+HybridProtection::attempt
+#[cfg_attr(kani, kani::proof)]
+#[cfg_attr(kani, kani::stub(crate::debt::LocalNode::with, crate::debt::verif_h::list_h::with_static))]
+#[cfg_attr(kani, kani::stub(crate::debt::Node::get, crate::debt::verif_h::list_h::node_get_unexpected))]
+#[cfg_attr(kani, kani::unwind(12))]
+pub(crate) fn l1_prot_null() {
+    let node = list_h::setup_thread_node();
+    fresh_ledger();
+    let storage: AtomicPtr<Obj> = AtomicPtr::new(core::ptr::null_mut());
+    let pre = list_h::view(node);
+    let promote = nd::any_bool();
+    hooks_on();
+    let r = LocalNode::with(|l| HybridProtection::<Option<TP>>::attempt(l, &storage));
+    hooks_off();
+    vassert!(r.is_some(), "attempt_succeeds_on_the_empty_value");
+    let r = r.unwrap();
+    vassert!(r.debt.is_some() && r.ptr.is_none(), "guard_of_the_empty_value_borrows_and_is_none");
+    vassert!(list_h::peek_slot(node, 0) == 0, "empty_value_occupies_a_slot_with_the_null_pointer");
+    if promote {
+        let v: Option<TP> = r.into_inner();
+        vassert!(v.is_none(), "promoted_empty_guard_is_none");
+    } else {
+        drop(r);
+    }
+    let post = list_h::view(node);
+    vassert!(list_h::same_slots(&post.slots, &pre.slots), "no_borrow_slot_stays_occupied_after_a_guard_of_the_empty_value_is_gone");
+    let mut o = 0;
+    while o < model::POOL {
+        vassert!(model::cnt(o) == BASE, "empty_value_touches_no_count");
+        o += 1;
+    }
+    vcover!("l1_prot_null_end");
+}
